@@ -1435,10 +1435,140 @@ func c10History(ctx *core.Ctx, r *rand.Rand, reqs *[]string, pend *[]func(string
 	})
 }
 
+// one repeated column, for the L2 histories against the RepCol mirror
+type c10Rep struct {
+	L []int64 `parquet:"l"`
+}
+
+// one history on a single repeated int64 column: typed writes, row writes, Swap, Less, Page
+func c10RepHistory(ctx *core.Ctx, r *rand.Rand, reqs *[]string, pend *[]func(string)) {
+	s := c10Sort{Path: []string{"l"}, Desc: r.Intn(2) == 0, NullsFirst: r.Intn(2) == 0}
+	buf := parquet.NewGenericBuffer[c10Rep](parquet.SortingRowGroupConfig(parquet.SortingColumns(s.column())))
+	base := parquet.VerifBufferOf(buf)
+	schema := buf.Schema()
+	var ops []string
+	var lessBits []byte
+	n := 0
+	write := func() {
+		k := 1 + r.Intn(6)
+		batch := make([]c10Rep, k)
+		for i := range batch {
+			for j := r.Intn(5); j > 0; j-- {
+				batch[i].L = append(batch[i].L, int64(1+r.Intn(4)))
+			}
+			if len(batch[i].L) == 0 {
+				ops = append(ops, "w:0/0/n")
+			} else {
+				var cs []string
+				for j, v := range batch[i].L {
+					rep := 1
+					if j == 0 {
+						rep = 0
+					}
+					cs = append(cs, fmt.Sprintf("%d/1/%d", rep, v))
+				}
+				ops = append(ops, "w:"+strings.Join(cs, ";"))
+			}
+		}
+		if r.Intn(2) == 0 {
+			buf.Write(batch)
+			ctx.Hist("rep-history-op", "typed-write")
+		} else {
+			rows := make([]parquet.Row, k)
+			for i := range batch {
+				rows[i] = schema.Deconstruct(nil, &batch[i])
+			}
+			buf.WriteRows(rows)
+			ctx.Hist("rep-history-op", "rows-write")
+		}
+		n += k
+	}
+	steps := func(k int) {
+		for t := 0; t < k; t++ {
+			i, j := r.Intn(n), r.Intn(n)
+			if r.Intn(2) == 0 {
+				less, _ := parquet.VerifSortedColumnLess(base, 0, i, j)
+				ops = append(ops, fmt.Sprintf("l:%d:%d", i, j))
+				if less {
+					lessBits = append(lessBits, '1')
+				} else {
+					lessBits = append(lessBits, '0')
+				}
+				ctx.Hist("rep-history-op", "less")
+			} else {
+				buf.Swap(i, j)
+				ops = append(ops, fmt.Sprintf("s:%d:%d", i, j))
+				ctx.Hist("rep-history-op", "swap")
+			}
+		}
+	}
+	var pageVals []string
+	page := func() {
+		pg := buf.ColumnBuffers()[0].Page()
+		vals := make([]parquet.Value, pg.NumValues()+1)
+		m, _ := pg.Values().ReadValues(vals)
+		pageVals = pageVals[:0]
+		for _, v := range vals[:m] {
+			if !v.IsNull() {
+				pageVals = append(pageVals, fmt.Sprint(v.Int64()))
+			}
+		}
+		ops = append(ops, "p")
+		ctx.Hist("rep-history-op", "page")
+	}
+	for w := 1 + r.Intn(2); w > 0; w-- {
+		write()
+	}
+	steps(r.Intn(12))
+	page()
+	if r.Intn(2) == 0 {
+		if r.Intn(2) == 0 {
+			write()
+		}
+		steps(1 + r.Intn(8))
+		page()
+	}
+	offs, bos, reps, defs, _ := parquet.VerifRepeatedRows(buf.ColumnBuffers()[0])
+	var rowText, lvText []string
+	for i := range offs {
+		rowText = append(rowText, fmt.Sprintf("%d/%d", offs[i], bos[i]))
+	}
+	for i := range reps {
+		lvText = append(lvText, fmt.Sprintf("%d/%d", reps[i], defs[i]))
+	}
+	join := func(xs []string) string {
+		if len(xs) == 0 {
+			return "-"
+		}
+		return strings.Join(xs, ",")
+	}
+	bits := "-"
+	if len(lessBits) > 0 {
+		bits = string(lessBits)
+	}
+	nf, desc := "0", "0"
+	if s.NullsFirst {
+		nf = "1"
+	}
+	if s.Desc {
+		desc = "1"
+	}
+	req := fmt.Sprintf("repcol 1 %s %s %s", nf, desc, strings.Join(ops, " "))
+	got := fmt.Sprintf("ok rows=%s lv=%s base=%s less=%s", join(rowText), join(lvText), join(pageVals), bits)
+	ctx.Case(req, len(ops) > 3)
+	*reqs = append(*reqs, req)
+	*pend = append(*pend, func(ans string) {
+		if ans != got {
+			ctx.Fail("L2", "repeated-buffer-mirror", "repeated column buffer (row mappings, levels, page values, Less) differs from the Lean mirror",
+				map[string]any{"history": req, "impl": got, "model": ans, "variant": ctx.Variant})
+		}
+	})
+}
+
 // ---------------------------------------------------------------- entry point
 
 func RunC10(ctx *core.Ctx) {
-	ctx.SetRule("L1: sort.Sort on GenericBuffer[T] (typed Write and WriteRows), Buffer, RowBuffer[T], and SortingWriter[T] Close over four struct schemas (required / optional pointer / optional zero-is-null / nested optional group / repeated leaves, also repeated leaves placed before the required key columns), 0-3 sorting columns x asc/desc x nulls first/last, null and value runs of length 1,2,3,7,8,9,15,16,17,64,65, small alphabets (duplicates), write batches around 8 and 64, optional second phase (write more, sort again); L2: broadcastRangeInt32 for lengths 0..40,63..65,127..129,255,257 x 17 bases, and write/Swap/Less/Page histories on one optional column against the Lean OptCol mirror. Distinct by canonical input; non-trivial = some nullable sorting column holds both nulls and values (L1), run length >= 8 not a multiple of 8 (kernel), more than 3 ops (history)")
+	ctx.SetRule("L1: sort.Sort on GenericBuffer[T] (typed Write and WriteRows), Buffer, RowBuffer[T], and SortingWriter[T] Close over four struct schemas (required / optional pointer / optional zero-is-null / nested optional group / repeated leaves, also repeated leaves placed before the required key columns), 0-3 sorting columns x asc/desc x nulls first/last, null and value runs of length 1,2,3,7,8,9,15,16,17,64,65, small alphabets (duplicates), write batches around 8 and 64, optional second phase (write more, sort again); L2: broadcastRangeInt32 for lengths 0..40,63..65,127..129,255,257 x 17 bases, and write/Swap/Less/Page histories on one optional column against the Lean OptCol mirror and on one repeated column against the RepCol mirror. Distinct by canonical input; non-trivial = some nullable sorting column holds both nulls and values (L1), run length >= 8 not a multiple of 8 (kernel), more than 3 ops (history)")
 	d := ctx.Driver()
 	if ctx.Replay != "" {
 		c10Guard(ctx, "panic-in-replay", "replaying a recorded case panicked", func() map[string]any { return map[string]any{"file": ctx.Replay} },
@@ -1468,6 +1598,16 @@ func RunC10(ctx *core.Ctx) {
 		for i, n := 0, ctx.Scale(6000, 60000); i < n; i++ {
 			c10Guard(ctx, "panic-in-optional-buffer-history", "a write/Swap/Less/Page history panicked outside its guarded operations", nil,
 				func() { c10History(ctx, r, &reqs, &pend) })
+			if len(reqs) >= 2000 {
+				c06Flush(ctx, d, &reqs, &pend)
+			}
+		}
+		c06Flush(ctx, d, &reqs, &pend)
+		// … and on a repeated column against the RepCol mirror
+		rr := ctx.Rand("c10-rep-history")
+		for i, n := 0, ctx.Scale(3000, 30000); i < n; i++ {
+			c10Guard(ctx, "panic-in-repeated-buffer-history", "a write/Swap/Less/Page history on a repeated column panicked",
+				nil, func() { c10RepHistory(ctx, rr, &reqs, &pend) })
 			if len(reqs) >= 2000 {
 				c06Flush(ctx, d, &reqs, &pend)
 			}
